@@ -130,6 +130,56 @@ def run(eng, ctx):
         ub = eng.symeval(qual).undef_reads
         hf = eng.repo.func(qual)
         ctx.check(not ub, "C19.D0", qual, "locals bound before use", expected="every local read has a binding on its path", found=", ".join(f"{n.id} (line {n.lineno})" for n in ub[:4]) or "ok", **eng.loc(hf, ub[0] if ub else hf.node))
+    # a cached helper behind the name helpers must not hand out a mutable result: every caller gets the same list / dict, and one that edits it
+    # in place (pop, append, sort ...) changes what the others see from then on
+    hmod = eng.repo.modules["rtcmhelpers"].tree
+    roots_ = {"datadesc", "att2idx", "att2name"}
+    defs_ = {n.name: n for n in hmod.body if isinstance(n, ast.FunctionDef)}
+    reach_ = set(roots_)
+    grew_ = True
+    while grew_:
+        grew_ = False
+        for fn_ in list(reach_):
+            for c_ in ast.walk(defs_[fn_]) if fn_ in defs_ else ():
+                if isinstance(c_, ast.Call) and isinstance(c_.func, ast.Name) and c_.func.id in defs_ and c_.func.id not in reach_:
+                    reach_.add(c_.func.id)
+                    grew_ = True
+    for fn_ in sorted(reach_ & set(defs_)):
+        d_ = defs_[fn_]
+        cached_ = [x for x in d_.decorator_list if any(k in norm(x) for k in ("lru_cache", "functools.cache", "cache"))]
+        if not cached_:
+            continue
+        mutable_ = [r for r in ast.walk(d_) if isinstance(r, ast.Return) and r.value is not None and (
+            isinstance(r.value, (ast.List, ast.Dict, ast.Set, ast.ListComp, ast.DictComp, ast.SetComp))
+            or (isinstance(r.value, ast.Call) and ((isinstance(r.value.func, ast.Attribute) and r.value.func.attr in ("split", "rsplit", "splitlines", "copy"))
+                                                   or (isinstance(r.value.func, ast.Name) and r.value.func.id in ("list", "dict", "set", "bytearray", "sorted")))))]
+        if not mutable_:
+            continue
+        from ..symeval import MUTATORS as _MUT
+
+        edits_ = []
+        for g_ in sorted(reach_ & set(defs_)):
+            holders = {t.id for a in ast.walk(defs_[g_]) if isinstance(a, ast.Assign) and isinstance(a.value, ast.Call) and isinstance(a.value.func, ast.Name) and a.value.func.id == fn_
+                       for t in a.targets if isinstance(t, ast.Name)}
+            for n_ in ast.walk(defs_[g_]):
+                base = None
+                if isinstance(n_, ast.Call) and isinstance(n_.func, ast.Attribute) and n_.func.attr in _MUT:
+                    base = n_.func.value
+                elif isinstance(n_, ast.Subscript) and isinstance(n_.ctx, (ast.Store, ast.Del)):
+                    base = n_.value
+                elif isinstance(n_, ast.AugAssign):
+                    base = n_.target
+                if base is None:
+                    continue
+                if (isinstance(base, ast.Name) and base.id in holders) or (isinstance(base, ast.Call) and isinstance(base.func, ast.Name) and base.func.id == fn_):
+                    edits_.append((g_, n_))
+        memo_hit.add(fn_)
+        if edits_:
+            g_, n_ = edits_[0]
+            ctx.bad("C19.D0", f"rtcmhelpers.{g_}", norm(n_)[:80], expected=f"the result of the cached helper `{fn_}` is not edited in place (it is the one object every caller gets)",
+                    found=f"`{norm(cached_[0])[:40]}` on `{fn_}`, which returns a new mutable object ({norm(mutable_[0].value)[:40]}), and an in-place edit of that object here: later calls of the name helpers see the edited value", file=eng.repo.relpath("rtcmhelpers"), line=n_.lineno)
+        else:
+            ctx.ok("C19.D0", f"rtcmhelpers.{fn_}", "cached helper", found="returns a mutable object that no caller edits in place", file=eng.repo.relpath("rtcmhelpers"), line=d_.lineno)
     if not memo_hit:
         ctx.ok("C19.D0", "rtcmhelpers", "memo tables in the name helpers", found="none: datadesc, att2idx and att2name store into no module-level table", file=eng.repo.relpath("rtcmhelpers"), line=0)
 
